@@ -320,36 +320,53 @@ def loop_obligations(F, res, reach, crates=("tx3_lang",), rule="LOOP", rows=None
                 continue
             n += 1
             key = "%s|loop" % p
+            # the loop's own blocks (inner loops have their own obligation) and its exit tests: a test counts as the loop's
+            # driver only if it decides an edge that leaves the loop and is evaluated in every iteration
+            own = set(body)
+            for h2, b2 in loops.items():
+                if h2 != h and h2 in body and b2 < body:
+                    own -= b2
+            latches = [u for u in body if h in cfg.succ[u]]
+            awaits = any(f["blocks"][b]["t"]["k"] == "yield" for b in body)
             it_next = False
-            awaits = False
-            for b in body:
-                t = f["blocks"][b]["t"]
-                if t["k"] == "call" and t.get("trait") == "std::iter::Iterator" and t.get("method") in ("next", "next_back"):
-                    it_next = True
-                if t["k"] == "yield":
-                    awaits = True
-            polls = any(f["blocks"][b]["t"]["k"] == "call" and (f["blocks"][b]["t"].get("callee") or "") == "std::future::Future::poll" for b in body)
-            inner_await = awaits and polls and not any(
-                f["blocks"][b]["t"]["k"] == "call" and not (f["blocks"][b]["t"].get("callee") or "").startswith(("std::future::", "std::pin::", "std::task::", "std::ops::Try", "std::ops::FromResidual"))
-                and not site_in_derive("") and "desugar:Await" not in f["blocks"][b]["t"].get("exp", "") for b in body)
             bounded = False
-            if not it_next:
-                for b in body:
-                    for s in f["blocks"][b]["s"]:
-                        rv = s["rv"]
-                        if rv["k"] == "binop" and rv["op"] in ("Lt", "Le", "Gt", "Ge"):
-                            if discharge._const_int(f, du, rv["b"]) is not None or discharge._const_int(f, du, rv["a"]) is not None:
-                                bounded = True
-                            else:
-                                # counter (only ever `+= 1` inside the loop) compared with a loop-invariant value
-                                for side, other in (("a", "b"), ("b", "a")):
-                                    pa, po = mir.op_place(rv[side]), mir.op_place(rv[other])
-                                    if pa is None or po is None:
-                                        continue
-                                    cnt = _counter_root(f, du, pa["l"], body)
-                                    inv = all(d[1] not in body for d in du.defs.get(_copy_root(f, du, po["l"]), [])) 
-                                    if cnt and inv:
-                                        bounded = True
+            for u in sorted(body):
+                blk = f["blocks"][u]
+                t = blk["t"]
+                if t["k"] != "switch" or not any(v not in body and not f["blocks"][v]["cleanup"] for v in cfg.succ[u]):
+                    continue
+                if not all(cfg.dominates(u, l) for l in latches):
+                    # the test is skipped on some iterations (a `break` inside a branch): it does not bound the loop
+                    continue
+                dpl = mir.op_place(t["discr"])
+                if dpl is None:
+                    continue
+                for d in du.defs.get(dpl["l"], []):
+                    if d[0] == "call":
+                        continue
+                    rv = d[3]["rv"]
+                    if rv["k"] == "discr":
+                        # `match iter.next()`: the scrutinee is the result of Iterator::next called in this loop's own blocks
+                        for o in mir.provenance(f, du, {"l": rv["pl"]["l"], "p": []}):
+                            if o.kind == "call" and o.term.get("trait") in ("std::iter::Iterator", "std::iter::DoubleEndedIterator") \
+                                    and o.term.get("method") in ("next", "next_back") and o.bb in own:
+                                it_next = True
+                    elif rv["k"] == "binop" and rv["op"] in ("Lt", "Le", "Gt", "Ge"):
+                        if discharge._const_int(f, du, rv["b"]) is not None or discharge._const_int(f, du, rv["a"]) is not None:
+                            bounded = True
+                        else:
+                            # counter (only ever `+= 1` inside the loop) compared with a loop-invariant value
+                            for side, other in (("a", "b"), ("b", "a")):
+                                pa, po = mir.op_place(rv[side]), mir.op_place(rv[other])
+                                if pa is None or po is None:
+                                    continue
+                                cnt = _counter_root(f, du, pa["l"], body)
+                                inv = all(d2[1] not in body for d2 in du.defs.get(_copy_root(f, du, po["l"]), []))
+                                if cnt and inv:
+                                    bounded = True
+            polls = any(f["blocks"][b]["t"]["k"] == "call" and (f["blocks"][b]["t"].get("callee") or "") == "std::future::Future::poll" for b in body)
+            inner_await = awaits and not any(
+                f["blocks"][b]["t"]["k"] == "call" and "desugar:Await" not in f["blocks"][b]["t"].get("exp", "") for b in body)
             w = where(f, f["blocks"][h]["t"].get("line"))
             if it_next:
                 res.add([ok(rule, key, w, "iterator-driven loop")])
